@@ -29,6 +29,7 @@ fn main() {
         "c15s" => { valmode::run_c15s(&a); return }
         "c14t" => { trackmode::run(&a); return }
         "c20" => { valmode::run_c20(&a); return }
+        "c20cold" => { valmode::run_c20cold(args.get(2).and_then(|s| s.parse().ok()).unwrap_or(8)); return }
         "tables" => { valmode::dump_tables(&a.out); return }
         "c06nest" => { let d: usize = args[2].parse().unwrap(); let k: usize = args[3].parse().unwrap(); modes::c06_nest(d, k, &args[4]); return }
         "c01" => modes::c01(&a),
